@@ -335,6 +335,8 @@ class OrderedMultiDict(dict):
         self_add = self.add
         for k, v in iterator:
             self_add(k, v)
+        for k in F:
+            self_add(k, F[k])
 
     def __setitem__(self, k, v):
         if super().__contains__(k):
